@@ -54,3 +54,30 @@ Theorem C03_pipeline :
          C03Assembly.LALR_LA (gi_rules gi) (t_aut t) q (r, length (rhs_of (gi_rules gi) r)) a.
 Proof. exact PipelineLA.pipeline_lookaheads_exact. Qed.
 Print Assumptions C03_pipeline.
+
+From YG Require Import LRBase LR0Build Resolve TableCert Pipeline PipelineWarn.
+Close Scope Z_scope.
+Open Scope nat_scope.
+
+(* for the tables the pipeline emits: a conflict warning is recorded for a cell exactly when the candidate actions of that cell (the shift on the symbol and the reductions whose lookahead set - exact LALR(1) by C03_pipeline - contains it) meet, in the pairwise resolution, a pair that the precedence declarations do not decide *)
+Theorem C03_warning_pipeline :
+  forall (gi : ginfo) (t : tables),
+         generate_tables gi = inr t ->
+         forall q a : nat,
+         (exists w : nat * nat, In (q, a, w) (t_warn t)) <->
+         q < length (t_aut t) /\
+         a < gi_nsyms gi /\
+         cell_undecided
+           (candidates (gi_rules gi) (t_aut t) (la_lookup (t_la t)) (sprec_of gi) (rprec_of gi) q a).
+Proof. exact PipelineWarn.pipeline_warnings. Qed.
+Print Assumptions C03_warning_pipeline.
+
+From YG Require Import LRBase LR0Build Resolve TableCert Pipeline PipelineWarn.
+Close Scope Z_scope.
+Open Scope nat_scope.
+
+(* such a cell has at least two candidate actions: warnings only come from LALR(1) conflicts *)
+Theorem C03_warning_needs_conflict :
+  forall l : list cand, cell_undecided l -> 2 <= length l.
+Proof. exact PipelineWarn.undecided_needs_two. Qed.
+Print Assumptions C03_warning_needs_conflict.
